@@ -16,6 +16,7 @@ mod keycmp;
 mod map;
 mod native;
 mod poseidon;
+mod pubin;
 mod vector;
 mod zkirfam;
 
@@ -205,6 +206,7 @@ fn main() {
         "biguint" => biguint::run_family(&spec, k, replay),
         "map" => map::main_arm(spec, k, replay),
         "vector" => vector::main_arm(spec, k, replay),
+        "pubin" => pubin::main_arm(spec, k, replay),
         _ => panic!("unknown family {family}"),
     }
 }
